@@ -30,7 +30,7 @@ value outside the int32 range happens BEFORE the clamp and is not covered by it)
 import math
 
 from .. import ordertype as OT
-from ..c17_util import decl_of, float_value, param_index, peel, this_field, writes
+from ..c17_util import float_value, param_index, peel, this_field, writes
 
 EXPLANATION = (
     'Decided: every tile number returned by mercx_to_tilex / mercy_to_tiley is the result of detail::clamp(v, 0, num_tiles_in_zoom(zoom) - 1) '
@@ -56,47 +56,85 @@ TILE = NS + 'Tile'
 COORD = NS + 'Coordinates'
 
 
-def origin(fn, nid, depth=0):
-    """Follow a value through parentheses, implicit and explicit casts and locals that have exactly one definition
-    (their initialiser) to the expression that computes it."""
-    while nid is not None and nid in fn.nodes and depth < 32:
+# ------------------------------------------------------------------------------------------------ interprocedural value origin
+#
+# A value is a Ref (fn, node id, ctx): ctx binds the parameters of fn to the Refs of the arguments it was called with.  The
+# origin of a value is followed through casts, single-definition locals, parameters (into the caller's argument) and calls of
+# functions of the fact base that consist of one return statement (an extracted helper is seen through, as if inlined).
+
+LEAVES = (CLAMP, NUM_TILES, EXTENT, NS + 'detail::lon_to_x', NS + 'detail::lat_to_y', NS + 'lonlat_to_mercator', NS + 'mercx_to_tilex', NS + 'mercy_to_tiley')
+
+
+class Ref:
+    __slots__ = ('fn', 'nid', 'ctx', 'top')
+
+    def __init__(self, fn, nid, ctx=None, top=None):
+        self.fn, self.nid, self.ctx, self.top = fn, nid, ctx or {}, top if top is not None else fn
+
+    def at(self, nid):
+        return Ref(self.fn, nid, self.ctx, self.top)
+
+    @property
+    def node(self):
+        return self.fn.nodes.get(self.nid)
+
+    def expr(self):
+        return self.fn.expr(self.nid)
+
+
+def xorigin(fb, ref, depth=0):
+    while ref is not None and depth < 40:
         depth += 1
-        nid = peel(fn, nid)
-        n = fn.nodes.get(nid)
-        if n is None:
+        nid = origin(ref.fn, ref.nid)
+        if nid is None:
             return None
-        if n.get('k') == 'cast' and 'sub' in n:
-            nid = n['sub']
+        ref = ref.at(nid)
+        n = ref.node
+        if n.get('k') == 'var' and n.get('vk') == 'param' and n['d'] in ref.ctx:
+            ref = ref.ctx[n['d']]
             continue
-        if n.get('k') == 'var' and n.get('vk') == 'local':
-            dn, dv = decl_of(fn, n['d'])
-            if dv is not None and isinstance(dv.get('init'), int) and not any(w[1] == ('var', n['d']) for w in writes(fn)):
-                nid = dv['init']
-                continue
-        return nid
-    return nid
+        if n.get('k') == 'call' and n.get('u') and n.get('q') not in LEAVES:
+            cands = [g for g in fb.by_usr.get(n['u'], []) if g.has_cfg]
+            if cands:
+                g = cands[0]
+                rets = _returns(g)
+                if len(rets) == 1 and len(g.params) == len(n.get('args', [])) and not g.loops:
+                    ctx = {p['d']: ref.at(a) for p, a in zip(g.params, n['args'])}
+                    ref = Ref(g, rets[0]['sub'], ctx, ref.top)
+                    continue
+        return ref
+    return ref
 
 
-def on(fn, nid):
-    x = origin(fn, nid)
-    return fn.nodes.get(x) if x is not None else None
+def origin(fn, nid, depth=0):
+    from ..c17_util import origin as _o
+    return _o(fn, nid, depth)
 
 
-def _is_global(fn, nid, q):
-    n = on(fn, nid)
-    return n is not None and n.get('k') == 'var' and n.get('q') == q
+def _is_global(fb, ref, q):
+    r = xorigin(fb, ref)
+    return r is not None and r.node.get('k') == 'var' and r.node.get('q') == q
 
 
-def _is_param(fn, nid, idx):
-    n = on(fn, nid)
-    return n is not None and n.get('k') == 'var' and n.get('vk') == 'param' and param_index(fn, n['d']) == idx
+def _is_param(fb, ref, idx):
+    """the value is parameter idx of the function the analysis started in"""
+    r = xorigin(fb, ref)
+    return r is not None and r.fn is r.top and not r.ctx and r.node.get('k') == 'var' and r.node.get('vk') == 'param' \
+        and param_index(r.fn, r.node['d']) == idx
 
 
-def _call_of(fn, nid, q):
-    n = on(fn, nid)
-    if n is not None and n.get('k') == 'call' and n.get('q') == q:
-        return n
+def _call_of(fb, ref, q):
+    r = xorigin(fb, ref)
+    if r is not None and r.node.get('k') == 'call' and r.node.get('q') == q:
+        return r
     return None
+
+
+def _const(fb, ref):
+    r = xorigin(fb, ref)
+    if r is None:
+        return None
+    return r.fn.const_value(r.nid)
 
 
 def _returns(fn):
@@ -122,60 +160,72 @@ def clamp_dataflow(fb, R):
             if not rets:
                 R.bad('K1-tile-result-clamped', key, fn.site, '%s has no return value' % name)
                 continue
+            # a conditional expression returns either operand
+            vals = []
             for r in rets:
-                c = _call_of(fn, r['sub'], CLAMP)
-                if c is None or len(c.get('args', [])) != 3:
-                    R.bad('K1-tile-result-clamped', key, fn.loc(r['id']),
-                          '%s returns %s, which is not the result of detail::clamp: the tile number can leave [0, 2^zoom - 1]' % (name, fn.expr(r['sub'])[:80]))
-                    continue
-                v, lo, hi = c['args']
-                msg = None
-                if fn.const_value(lo) != 0:
-                    msg = 'the lower clamp bound is %s, required the constant 0' % fn.expr(lo)
-                else:
-                    h = on(fn, hi)
-                    if _call_of(fn, hi, NUM_TILES) is not None:
-                        msg = 'the upper clamp bound is num_tiles_in_zoom(zoom) itself: tile number 2^zoom is outside the range [0, 2^zoom - 1]'
-                    elif h is not None and h.get('k') == 'binop' and h.get('op') in ('-', '+'):
-                        nt = _call_of(fn, h['lhs'], NUM_TILES)
-                        k = fn.const_value(h['rhs'])
-                        if nt is None or k is None:
-                            R.broken('%s: upper clamp bound %s not understood' % (fn.full, fn.expr(hi)))
-                            continue
-                        if h['op'] != '-' or k != 1:
-                            msg = 'the upper clamp bound is num_tiles_in_zoom(zoom) %s %d, required num_tiles_in_zoom(zoom) - 1' % (h['op'], k)
-                        elif len(nt.get('args', [])) != 1 or not _is_param(fn, nt['args'][0], 0):
-                            msg = 'the upper clamp bound is computed for %s, not for the zoom parameter' % fn.expr(nt['args'][0] if nt.get('args') else hi)
+                stack = [Ref(fn, r['sub'])]
+                while stack:
+                    x = xorigin(fb, stack.pop())
+                    if x is not None and x.node.get('k') == 'condop':
+                        stack.extend([x.at(x.node['then']), x.at(x.node['else'])])
                     else:
-                        R.broken('%s: upper clamp bound %s not understood' % (fn.full, fn.expr(hi)))
+                        vals.append((r, x))
+            for (r, x) in vals:
+                c = x if (x is not None and x.node.get('k') == 'call' and x.node.get('q') == CLAMP) else None
+                if c is None or len(c.node.get('args', [])) != 3:
+                    R.bad('K1-tile-result-clamped', key, fn.loc(r['id']),
+                          '%s returns %s, which is not the result of detail::clamp: the tile number can leave [0, 2^zoom - 1]'
+                          % (name, x.expr()[:80] if x is not None else '?'))
+                    continue
+                v, lo, hi = (c.at(a) for a in c.node['args'])
+                msg = None
+                if _const(fb, lo) != 0:
+                    msg = 'the lower clamp bound is %s, required the constant 0' % lo.expr()
+                else:
+                    h = xorigin(fb, hi)
+                    if _call_of(fb, hi, NUM_TILES) is not None:
+                        msg = 'the upper clamp bound is num_tiles_in_zoom(zoom) itself: tile number 2^zoom is outside the range [0, 2^zoom - 1]'
+                    elif h is not None and h.node.get('k') == 'binop' and h.node.get('op') in ('-', '+'):
+                        nt = _call_of(fb, h.at(h.node['lhs']), NUM_TILES)
+                        k = _const(fb, h.at(h.node['rhs']))
+                        if nt is None or k is None:
+                            R.broken('%s: upper clamp bound %s not understood' % (fn.full, hi.expr()))
+                            continue
+                        if h.node['op'] != '-' or k != 1:
+                            msg = 'the upper clamp bound is num_tiles_in_zoom(zoom) %s %d, required num_tiles_in_zoom(zoom) - 1' % (h.node['op'], k)
+                        elif len(nt.node.get('args', [])) != 1 or not _is_param(fb, nt.at(nt.node['args'][0]), 0):
+                            msg = 'the upper clamp bound is not computed for the zoom parameter'
+                    else:
+                        R.broken('%s: upper clamp bound %s not understood' % (fn.full, hi.expr()))
                         continue
-                R.check(msg is None, 'K1-tile-result-clamped', key, fn.loc(c['id']), '%s: %s' % (name, msg),
+                R.check(msg is None, 'K1-tile-result-clamped', key, c.fn.loc(c.nid), '%s: %s' % (name, msg),
                         detail='return <- clamp(v, 0, num_tiles_in_zoom(zoom) - 1)')
                 # ---- the clamped value: scaled offset in the right orientation
                 k2 = q + '#scaled-offset'
-                d = on(fn, v)
-                if d is None or d.get('k') != 'binop' or d.get('op') != '/':
-                    R.broken('%s: clamped value %s is not a quotient offset / tile extent' % (fn.full, fn.expr(v)[:80]))
+                d = xorigin(fb, v)
+                if d is None or d.node.get('k') != 'binop' or d.node.get('op') != '/':
+                    R.broken('%s: clamped value %s is not a quotient offset / tile extent' % (fn.full, v.expr()[:80]))
                     continue
-                ext = _call_of(fn, d['rhs'], EXTENT)
-                off = on(fn, d['lhs'])
-                if ext is None or off is None or off.get('k') != 'binop' or off.get('op') not in ('+', '-'):
-                    R.broken('%s: clamped value %s is not (offset) / tile_extent_in_zoom(zoom)' % (fn.full, fn.expr(v)[:80]))
+                ext = _call_of(fb, d.at(d.node['rhs']), EXTENT)
+                off = xorigin(fb, d.at(d.node['lhs']))
+                if ext is None or off is None or off.node.get('k') != 'binop' or off.node.get('op') not in ('+', '-'):
+                    R.broken('%s: clamped value %s is not (offset) / tile_extent_in_zoom(zoom)' % (fn.full, v.expr()[:80]))
                     continue
                 msg = None
-                if len(ext.get('args', [])) != 1 or not _is_param(fn, ext['args'][0], 0):
-                    msg = 'the tile extent is taken for %s, not for the zoom parameter' % fn.expr(ext['args'][0] if ext.get('args') else d['rhs'])
+                if len(ext.node.get('args', [])) != 1 or not _is_param(fb, ext.at(ext.node['args'][0]), 0):
+                    msg = 'the tile extent is not taken for the zoom parameter'
                 else:
-                    l_is_max, r_is_max = _is_global(fn, off['lhs'], MAXC), _is_global(fn, off['rhs'], MAXC)
-                    l_is_p, r_is_p = _is_param(fn, off['lhs'], 1), _is_param(fn, off['rhs'], 1)
+                    L, Rr = off.at(off.node['lhs']), off.at(off.node['rhs'])
+                    l_is_max, r_is_max = _is_global(fb, L, MAXC), _is_global(fb, Rr, MAXC)
+                    l_is_p, r_is_p = _is_param(fb, L, 1), _is_param(fb, Rr, 1)
                     if not ((l_is_max and r_is_p) or (l_is_p and r_is_max)):
-                        R.broken('%s: offset %s is not built from the coordinate parameter and max_coordinate_epsg3857' % (fn.full, fn.expr(d['lhs'])))
+                        R.broken('%s: offset %s is not built from the coordinate parameter and max_coordinate_epsg3857' % (fn.full, off.expr()))
                         continue
-                    if axis == 'x' and off['op'] != '+':
-                        msg = 'x tiles are numbered from left to right: the offset must be x + max_coordinate, found %s' % fn.expr(d['lhs'])
-                    elif axis == 'y' and not (off['op'] == '-' and l_is_max):
-                        msg = 'y tiles are numbered from top to bottom: the offset must be max_coordinate - y, found %s' % fn.expr(d['lhs'])
-                R.check(msg is None, 'K1-tile-result-clamped', k2, fn.loc(d['id']), '%s: %s' % (name, msg), detail=fn.expr(v)[:100])
+                    if axis == 'x' and off.node['op'] != '+':
+                        msg = 'x tiles are numbered from left to right: the offset must be x + max_coordinate, found %s' % off.expr()
+                    elif axis == 'y' and not (off.node['op'] == '-' and l_is_max):
+                        msg = 'y tiles are numbered from top to bottom: the offset must be max_coordinate - y, found %s' % off.expr()
+                R.check(msg is None, 'K1-tile-result-clamped', k2, d.fn.loc(d.nid), '%s: %s' % (name, msg), detail=v.expr()[:100])
     # ---- num_tiles_in_zoom = 1 << zoom
     q = NUM_TILES
     fns = fb.fns(q)
@@ -184,9 +234,10 @@ def clamp_dataflow(fb, R):
     for fn in fns:
         ok = bool(_returns(fn))
         for r in _returns(fn):
-            b = on(fn, r['sub'])
-            ok = ok and b is not None and b.get('k') == 'binop' and b.get('op') == '<<' and fn.const_value(b['lhs']) == 1 and _is_param(fn, b['rhs'], 0) \
-                and (fn.nodes.get(peel(fn, b['lhs']), {}).get('t') or '').startswith('unsigned')
+            b = xorigin(fb, Ref(fn, r['sub']))
+            ok = ok and b is not None and b.node.get('k') == 'binop' and b.node.get('op') == '<<' and _const(fb, b.at(b.node['lhs'])) == 1 \
+                and _is_param(fb, b.at(b.node['rhs']), 0) \
+                and (b.fn.nodes.get(peel(b.fn, b.node['lhs']), {}).get('t') or '').startswith('unsigned')
         R.check(ok, 'K1-tile-result-clamped', q + '#2^zoom', fn.site, 'num_tiles_in_zoom must return 1U << zoom')
     # ---- tile_extent_in_zoom = 2 * max / num_tiles
     q = EXTENT
@@ -198,19 +249,33 @@ def clamp_dataflow(fb, R):
     for fn in fns:
         ok = bool(_returns(fn)) and maxc is not None
         for r in _returns(fn):
-            b = on(fn, r['sub'])
-            if b is None or b.get('k') != 'binop' or b.get('op') != '/':
+            b = xorigin(fb, Ref(fn, r['sub']))
+            if b is None or b.node.get('k') != 'binop' or b.node.get('op') != '/':
                 ok = False
                 continue
-            nt = _call_of(fn, b['rhs'], NUM_TILES)
-            w = float_value(fn, b['lhs'], fb)
-            ok = ok and nt is not None and len(nt.get('args', [])) == 1 and _is_param(fn, nt['args'][0], 0) and w is not None and maxc is not None \
-                and w == 2 * maxc and any(fn.nodes[x].get('q') == MAXC for x in fn.subtree(b['lhs']))
+            nt = _call_of(fb, b.at(b.node['rhs']), NUM_TILES)
+            wn = origin(b.fn, b.node['lhs'])
+            w = float_value(b.fn, wn, fb) if wn is not None else None
+            ok = ok and nt is not None and len(nt.node.get('args', [])) == 1 and _is_param(fb, nt.at(nt.node['args'][0]), 0) and w is not None \
+                and maxc is not None and w == 2 * maxc and any(b.fn.nodes[x].get('q') == MAXC for x in b.fn.subtree(wn))
         R.check(ok, 'K1-tile-result-clamped', q + '#world-width/num-tiles', fn.site,
                 'tile_extent_in_zoom must return (2 * max_coordinate_epsg3857) / num_tiles_in_zoom(zoom)')
 
 
 # ================================================================================================ K2
+
+class _MinMaxCompiler(OT._Compiler):
+    """The ORDERTYPE compiler plus the two comparison-only standard functions a clamp is commonly written with:
+    std::min(a, b) is `b < a ? b : a`, std::max(a, b) is `a < b ? b : a` (their definition in [alg.min.max])."""
+
+    def call(self, nid, n):
+        q = n.get('q')
+        args = [a for a in n.get('args', []) if a is not None]
+        if q in ('std::min', 'std::max') and len(args) == 2:
+            a, b = self.expr(args[0]), self.expr(args[1])
+            return ('ite', ('cmp', '<', b, a), b, a) if q == 'std::min' else ('ite', ('cmp', '<', a, b), b, a)
+        return OT._Compiler.call(self, nid, n)
+
 
 def clamp_correct(fb, R):
     fns = fb.fns(CLAMP)
@@ -219,7 +284,7 @@ def clamp_correct(fb, R):
         R.bad('K2-clamp-correct', CLAMP + '#identity-inside', CLAMP, '%s not found' % CLAMP)
     for fn in fns:
         try:
-            prog = OT.compile_function(fb, fn)
+            prog = _MinMaxCompiler(fb, fn, None, False, 0, {}).compile()
         except OT.Inexact as e:
             R.broken('%s is not comparison-only, the order-type decision does not apply: %s' % (CLAMP, e))
             continue
@@ -294,23 +359,35 @@ def constants(fb, R):
 
 # ================================================================================================ K4
 
-def _field_sources(fn):
-    """{field name: [rhs node id]} for ctor initialisers and plain assignments to this-members."""
+def _field_sources(fb, fn, ctx=None, top=None, depth=0):
+    """{field name: [Ref of the value stored]} for ctor initialisers and plain assignments to this-members; a delegating
+    constructor contributes the stores of its target with the arguments bound."""
     out = {}
+    top = top or fn
     for n in fn.all_nodes():
-        if n.get('k') == 'init' and 'name' in n and isinstance(n.get('init'), int):
-            out.setdefault(n['name'], []).append(n['init'])
+        if n.get('k') == 'init' and isinstance(n.get('init'), int):
+            if 'name' in n:
+                out.setdefault(n['name'], []).append(Ref(fn, n['init'], ctx, top))
+            else:
+                c = fn.nodes.get(peel(fn, n['init']), {})
+                if c.get('k') == 'construct' and c.get('q') == TILE + '::(ctor)' and depth < 3:
+                    cands = [g for g in fb.by_usr.get(c.get('u'), []) if g.has_cfg]
+                    if cands and len(cands[0].params) == len(c.get('args', [])):
+                        g = cands[0]
+                        sub = {p['d']: Ref(fn, a, ctx, top) for p, a in zip(g.params, c['args'])}
+                        for f, refs in _field_sources(fb, g, sub, top, depth + 1).items():
+                            out.setdefault(f, []).extend(refs)
     for (n, key, kind, rhs) in writes(fn):
         if key[0] == 'field':
-            out.setdefault(key[1], []).append(rhs if kind in ('assign', 'opassign') else None)
+            out.setdefault(key[1], []).append(Ref(fn, rhs, ctx, top) if kind in ('assign', 'opassign') and rhs is not None else None)
     return out
 
 
-def _member_of(fn, nid, name):
-    """(base node id) if origin of nid is `<base>.name`."""
-    n = on(fn, nid)
-    if n is not None and n.get('k') == 'member' and n.get('name') == name and n.get('field'):
-        return n['base']
+def _member_of(fb, ref, name):
+    """Ref of the base if the origin of the value is `<base>.name`."""
+    r = xorigin(fb, ref)
+    if r is not None and r.node.get('k') == 'member' and r.node.get('name') == name and r.node.get('field'):
+        return r.at(r.node['base'])
     return None
 
 
@@ -326,11 +403,11 @@ def tile_ctors(fb, R):
     seen = set()
     for fn in fb.fns(q):
         ps = fn.params
-        src = _field_sources(fn)
+        src = _field_sources(fb, fn)
         if len(ps) == 3:
             seen.add('xyz')
-            ok = all(len(src.get(f, [])) == 1 for f in (fx, fy, fz)) and _is_param(fn, src[fx][0], 1) and _is_param(fn, src[fy][0], 2) \
-                and _is_param(fn, src[fz][0], 0)
+            ok = all(len(src.get(f, [])) == 1 and src[f][0] is not None for f in (fx, fy, fz)) and _is_param(fb, src[fx][0], 1) \
+                and _is_param(fb, src[fy][0], 2) and _is_param(fb, src[fz][0], 0)
             R.check(ok, 'K4-tile-ctor-uses-conversions', q + '#from-xyz', fn.site, 'Tile(zoom, tx, ty) must store x = tx, y = ty, z = zoom')
             continue
         if len(ps) != 2:
@@ -344,39 +421,39 @@ def tile_ctors(fb, R):
         msg = None
         if not all(len(src.get(f, [])) == 1 and src[f][0] is not None for f in (fx, fy, fz)):
             msg = 'x, y and z must each be set exactly once (found %s)' % {f: len(src.get(f, [])) for f in (fx, fy, fz)}
-        elif not _is_param(fn, src[fz][0], 0):
+        elif not _is_param(fb, src[fz][0], 0):
             msg = 'z is not the zoom parameter'
         else:
             bases = []
             for (f, conv, member) in ((fx, NS + 'mercx_to_tilex', cx), (fy, NS + 'mercy_to_tiley', cy)):
-                c = _call_of(fn, src[f][0], conv)
+                c = _call_of(fb, src[f][0], conv)
                 if c is None:
-                    msg = '%s is not computed by %s (found %s)' % (f, conv.rsplit('::', 1)[-1], fn.expr(src[f][0])[:70])
+                    msg = '%s is not computed by %s (found %s)' % (f, conv.rsplit('::', 1)[-1], src[f][0].expr()[:70])
                     break
-                a = c.get('args', [])
-                if len(a) != 2 or not _is_param(fn, a[0], 0):
+                a = c.node.get('args', [])
+                if len(a) != 2 or not _is_param(fb, c.at(a[0]), 0):
                     msg = '%s is computed for another zoom than the parameter' % f
                     break
-                b = _member_of(fn, a[1], member)
+                b = _member_of(fb, c.at(a[1]), member)
                 if b is None:
-                    msg = '%s is computed from %s, required the %s member of the mercator coordinates' % (f, fn.expr(a[1]), member)
+                    msg = '%s is computed from %s, required the %s member of the mercator coordinates' % (f, c.at(a[1]).expr(), member)
                     break
                 bases.append(b)
             if msg is None:
                 if from_coord:
-                    if not all(_is_param(fn, b, 1) for b in bases):
+                    if not all(_is_param(fb, b, 1) for b in bases):
                         msg = 'the coordinates used are not the constructor argument'
                 else:
                     for b in bases:
-                        c = _call_of(fn, b, NS + 'lonlat_to_mercator')
+                        c = _call_of(fb, b, NS + 'lonlat_to_mercator')
                         if c is None:
-                            msg = 'the location is not converted with lonlat_to_mercator (found %s)' % fn.expr(b)[:70]
+                            msg = 'the location is not converted with lonlat_to_mercator (found %s)' % b.expr()[:70]
                             break
-                        a = on(fn, c['args'][0]) if c.get('args') else None
+                        a = xorigin(fb, c.at(c.node['args'][0])) if c.node.get('args') else None
                         # implicit Coordinates(Location) conversion of the parameter
-                        if a is not None and a.get('k') == 'construct' and a.get('q') == COORD + '::(ctor)' and len(a.get('args', [])) == 1:
-                            a = on(fn, a['args'][0])
-                        if a is None or a.get('k') != 'var' or param_index(fn, a.get('d')) != 1:
+                        if a is not None and a.node.get('k') == 'construct' and a.node.get('q') == COORD + '::(ctor)' and len(a.node.get('args', [])) == 1:
+                            a = a.at(a.node['args'][0])
+                        if a is None or not _is_param(fb, a, 1):
                             msg = 'lonlat_to_mercator is not applied to the location argument'
                             break
         R.check(msg is None, 'K4-tile-ctor-uses-conversions', '%s#%s' % (q, tag), fn.site, 'Tile(zoom, %s): %s' % ('Location' if from_loc else 'Coordinates', msg))
@@ -396,19 +473,19 @@ def tile_ctors(fb, R):
         if not rets:
             msg = 'no return'
         for r in rets:
-            c = on(fn, r['sub'])
-            while c is not None and c.get('k') == 'construct' and c.get('q') == COORD + '::(ctor)' and len(c.get('args', [])) == 1:
-                c = on(fn, c['args'][0])
-            if c is None or c.get('k') != 'construct' or c.get('q') != COORD + '::(ctor)' or len(c.get('args', [])) != 2:
+            c = xorigin(fb, Ref(fn, r['sub']))
+            while c is not None and c.node.get('k') == 'construct' and c.node.get('q') == COORD + '::(ctor)' and len(c.node.get('args', [])) == 1:
+                c = xorigin(fb, c.at(c.node['args'][0]))
+            if c is None or c.node.get('k') != 'construct' or c.node.get('q') != COORD + '::(ctor)' or len(c.node.get('args', [])) != 2:
                 msg = 'does not return Coordinates{x, y}'
                 break
-            for (a, conv, member) in ((c['args'][0], NS + 'detail::lon_to_x', cx), (c['args'][1], NS + 'detail::lat_to_y', cy)):
-                k = _call_of(fn, a, conv)
-                if k is None or len(k.get('args', [])) != 1:
+            for (a, conv, member) in ((c.node['args'][0], NS + 'detail::lon_to_x', cx), (c.node['args'][1], NS + 'detail::lat_to_y', cy)):
+                k = _call_of(fb, c.at(a), conv)
+                if k is None or len(k.node.get('args', [])) != 1:
                     msg = '%s must be computed by %s' % ('x' if member == cx else 'y', conv.rsplit('::', 1)[-1])
                     break
-                b = _member_of(fn, k['args'][0], member)
-                if b is None or not _is_param(fn, b, 0):
+                b = _member_of(fb, k.at(k.node['args'][0]), member)
+                if b is None or not _is_param(fb, b, 0):
                     msg = '%s must be applied to c.%s' % (conv.rsplit('::', 1)[-1], member)
                     break
         R.check(msg is None, 'K4-tile-ctor-uses-conversions', key, fn.site, 'lonlat_to_mercator: %s' % msg)
